@@ -182,22 +182,41 @@ Definition with_uu (body : tx) (u : nat) : tx := cat [body; kw "WHERE"; TA (AUu 
 
 Record acc := mkAcc {
   a_out : list cte; a_names : list tx; a_map : list (tx * tx); a_j : nat;
-  a_last : option tx   (* what `other_df.latest_cte_name` reads afterwards: the last CTE object of the other
-                          frame is renamed in place only while no replacement has been made yet *)
+  a_last : option tx;  (* what `other_df.latest_cte_name` reads afterwards: the CTE nodes are rewritten in place, so it is
+                          the (possibly new) name of the last CTE that was added *)
+  a_nctr : nat         (* how often `_auto_incrementing_name` was drawn: a duplicated CTE gets a new alias for its inline VALUES *)
 }.
 
-(** [d] supplies the uuid literals: the j-th de-duplication uses [d (5 + j)] *)
+Fixpoint first_ctr (t : tx) : option nat :=
+  match t with
+  | TA (ACt n) => Some n
+  | TCat l r => match first_ctr l with Some n => Some n | None => first_ctr r end
+  | _ => None
+  end.
+
+Fixpoint subst_ctr (o n : nat) (t : tx) : tx :=
+  match t with
+  | TA (ACt k) => if Nat.eqb k o then TA (ACt n) else t
+  | TCat l r => TCat (subst_ctr o n l) (subst_ctr o n r)
+  | _ => t
+  end.
+
+(** [d] supplies the fresh values: the j-th de-duplication uses [d (5 + 2j)] for its uuid literal and [d (6 + 2j)] as the
+    number of the new VALUES alias (a CTE of the modelled programs has at most one inline VALUES source) *)
 Definition add_cte (d : nat -> nat) (a : acc) (c : cte) : acc :=
   let c1 := mkCte (subst_name (a_map a) (c_name c)) (c_br c) (c_sq c) (c_cols c) (subst (a_map a) (c_body c)) in
   if mem_tx (c_name c1) (a_names a) then
-    let body' := with_uu (c_body c1) (d (5 + a_j a)) in
+    let body1 := match first_ctr (c_body c1) with
+                 | Some o => subst_ctr o (d (6 + 2 * a_j a)) (c_body c1)
+                 | None => c_body c1 end in
+    let body' := with_uu body1 (d (5 + 2 * a_j a)) in
     mkAcc (a_out a ++ [mkCte body' (c_br c1) (c_sq c1) (c_cols c1) body']) (body' :: a_names a)
-          ((c_name c1, body') :: a_map a) (S (a_j a))
-          (Some (match a_map a with [] => body' | _ => c_name c end))
-  else mkAcc (a_out a ++ [c1]) (a_names a) (a_map a) (a_j a) (Some (c_name c)).
+          ((c_name c1, body') :: a_map a) (S (a_j a)) (Some body')
+          (match first_ctr (c_body c1) with Some _ => S (a_nctr a) | None => a_nctr a end)
+  else mkAcc (a_out a ++ [c1]) (a_names a) (a_map a) (a_j a) (Some (c_name c1)) (a_nctr a).
 
 Definition add_ctes (d : nat -> nat) (existing new : list cte) : acc :=
-  fold_left (add_cte d) new (mkAcc existing (map c_name existing) [] 0 None).
+  fold_left (add_cte d) new (mkAcc existing (map c_name existing) [] 0 None 0).
 
 (* ---------------------------------------------------------------- the session *)
 Record st := mkSt {
@@ -280,10 +299,10 @@ Definition set_seq_ju (f : frame) (ju : nat) (last : Z) : frame :=
 Definition minus (a b : list nat) : list nat := filter (fun x => negb (mem_nat x b)) a.
 
 (** `_handle_self_join` *)
-Definition self_join_fix (l r' : frame) (latest : tx) (c : col) : col :=
+Definition self_join_fix (l r' : frame) (oju : nat) (latest : tx) (c : col) : col :=
   if Nat.eqb (f_br l) (f_br r') then
     match cju c with
-    | Some u => if mem_nat u (minus (f_ku r') (f_ku l)) then mkCol (QCte latest) (cn c) (cap c) (cju c) else c
+    | Some u => if mem_nat u (minus (f_ku r') (f_ku l)) || Nat.eqb u oju then mkCol (QCte latest) (cn c) (cap c) (cju c) else c
     | None => c
     end
   else c.
@@ -320,7 +339,7 @@ Definition join_model (g : cfg) (r : regs) (d : nat -> nat) (l rt : frame) (on :
       | inl (Some (ca, cb)) =>
           match ensure_cols g r (ctx_of l) l [ca; cb] with
           | Some cs1 =>
-              match ensure_cols g r (ctx_of fj) l (map (self_join_fix l r' latest) cs1) with
+              match ensure_cols g r (ctx_of fj) l (map (self_join_fix l r' (f_ju rt) latest) cs1) with
               | Some [ca'; cb'] =>
                   join_finish g r d l (join_frame l (a_out a) (c_name jc) [(ca', cb')] ok) (sel_names l ++ sel_names rt)
               | _ => None
@@ -340,6 +359,10 @@ Definition join_model (g : cfg) (r : regs) (d : nat -> nat) (l rt : frame) (on :
       end
   | _, _ => None
   end.
+
+(** draws of `_auto_incrementing_name` made while the right frame's CTEs are added (they happen before join() can raise) *)
+Definition join_ctr (d : nat -> nat) (l rt : frame) : nat :=
+  a_nctr (add_ctes d (f_ctes l) (f_ctes (convert rt (f_sq rt)))).
 
 Definition subset_str (a b : list string) : bool := forallb (fun x => mem_str x b) a.
 
@@ -400,9 +423,10 @@ Definition run_step (g : cfg) (s : st) (e : env) (d : nat -> nat) (p : step)
                                      | Some ca, Some cb => inl (Some (ca, cb)) | _, _ => inl None end
                      | OnNames cs => inr cs
                      end in
+          let s1 := mkSt (rg s) (views s) (scache s) (eviews s) (counter s + join_ctr d fl fr) in
           match join_model g (rg s) d fl fr on' with
-          | Some f => (s, Some (dst, f), None)
-          | None => (s, None, None)
+          | Some f => (s1, Some (dst, f), None)
+          | None => (s1, None, None)
           end
       | _, _ => (s, None, None)
       end
